@@ -9,6 +9,7 @@ pub mod c06;
 pub mod c09;
 pub mod c10;
 pub mod c11;
+pub mod c12;
 
 pub type RunFn = fn(&Ctx) -> Finish;
 pub type ReplayFn = fn(&mut Local, &serde_json::Value) -> Result<(), String>;
@@ -24,11 +25,17 @@ pub fn registry() -> Vec<(&'static str, RunFn, ReplayFn)> {
         ("C09", c09::run as RunFn, c09::replay as ReplayFn),
         ("C10", c10::run as RunFn, c10::replay as ReplayFn),
         ("C11", c11::run as RunFn, c11::replay as ReplayFn),
+        ("C12", c12::run as RunFn, c12::replay as ReplayFn),
     ]
 }
 
 /// Isolated subprocess probes (`ommx-mc child <probe> …`).
-pub fn child(_args: &[String]) -> i32 {
-    eprintln!("ENGINE-ERROR: unknown child probe");
-    2
+pub fn child(args: &[String]) -> i32 {
+    match args.first().map(|s| s.as_str()) {
+        Some("log_encode") if args.len() >= 3 => c12::child_log_encode(&args[1..]),
+        _ => {
+            eprintln!("ENGINE-ERROR: unknown child probe");
+            2
+        }
+    }
 }
